@@ -1327,7 +1327,8 @@ class DesignSpace:
         if minus_lb:
             out[..., norm_inds] += lower_bounds[norm_inds]
 
-        if not self.__no_integer:
+        # Only points are rounded, not the gradients scaled with ``minus_lb=False``.
+        if minus_lb and not self.__no_integer:
             self.round_vect(out, copy=False)
             if recast_to_int:
                 out = out.astype(self.__INT_DTYPE)
